@@ -83,6 +83,107 @@ def interactions(ck, mod, tier, parsed):
     return found
 
 # ---------------------------------------------------------------------------------------------
+def rigid_motion(ck, mod, tier, parsed):
+    """R1: value and gradient under rigid motion.  Translations and periodic-image shifts cannot change anything because
+    the interactions read positions only through Topology::getDist (the fake Topology object is 8 inaccessible bytes; any
+    direct read would abort the run) whose lattice invariance is C02.  Rotations: for the three coordinate-axis rotations
+    with symbolic (c, s), c^2 + s^2 = 1 -- which generate SO(3) -- EvaluateVar(R v) == EvaluateVar(v) and Grad(R v) == R Grad(v)."""
+    TO = 60 if tier == 'quick' else 300
+    c, s = z3.Reals('rc rs')
+    def rot(axis, v):
+        x, y, z = v
+        if axis == 2: return [c * x - s * y, s * x + c * y, z]
+        if axis == 0: return [x, c * y - s * z, s * y + c * z]
+        return [c * x + s * z, y, -s * x + c * z]
+    def run(which, bead, V, axis):
+        base = getdist_model(V)
+        def gd(it, a):
+            base(it, a)
+            if axis is not None:
+                out = a[0]; k = (symx.sgn64(a[2]), symx.sgn64(a[3])); w = rot(axis, V[k])
+                for i in range(3): it.store(Ptr(out.obj, out.off + 8 * i), w[i], 8)
+        mdl = models.all_models(); mdl['re:Topology7getDistEll'] = gd
+        def body(it):
+            it.fork_fselect = True
+            if axis is not None: it.assume(c * c + s * s == 1)
+            out = it.alloc(32, 'out'); top = it.alloc(8, 'faketop')
+            it.call('@h_' + which, [out, top, bead]); return read_doubles(it, out, 4)
+        return explore(mod, mdl, body, parsed=parsed)[0]
+    def Z(x): return x if z3.is_expr(x) else z3.RealVal(x)
+    for which in ('bond', 'angle', 'dih'):
+        beads = range(NB[which]) if tier != 'quick' else (0, NB[which] - 1)
+        for axis in range(3):
+            qv = []; qg = []; npair = 0
+            for bead in beads:
+                V = {}
+                r0 = run(which, bead, V, None); r1 = run(which, bead, V, axis)
+                for p0, v0 in r0:
+                    for p1, v1 in r1:
+                        pc = list(p0.pc) + list(p1.pc)
+                        A = Algebra(nonneg_check=nonneg_checker(pc)); A.relation('rc', A.rf(1 - s * s))
+                        try:
+                            a0 = A.rf(Z(v0[0])); a1 = A.rf(Z(v1[0]))
+                            g1 = [A.rf(Z(v1[1 + k])) for k in range(3)]; rg0 = [A.rf(z3.simplify(e)) for e in rot(axis, [Z(v0[1 + k]) for k in range(3)])]
+                        except TermCap as e:
+                            ck.inconc('%s rotation: %s' % (which, e)); continue
+                        defs = A.definitions() + list(A.side)
+                        if smt.check(smt.purify(defs + pc), 20)[0] == 'unsat': continue      # the rotated run cannot take a different branch / singular set
+                        npair += 1
+                        if bead == beads[0]: qv.append((defs + pc, [A.poly_z3(A.residual(a0, a1)) != 0]))
+                        for k in range(3): qg.append((defs + pc, [A.poly_z3(A.residual(g1[k], rg0[k])) != 0]))
+            ax = 'xyz'[axis]
+            fr = z3.Real('freeR')
+            ck.add_witness('%s under rotation about %s: %d compatible path pairs' % (which, ax, npair), npair >= 1)
+            st_, mdl = smt.agg_core(ck, '%s.R1 EvaluateVar is invariant under every rotation about the %s axis' % (which, ax), qv, TO, purify_all=True, probe=[fr != z3.Real('v01_0')])
+            if st_ == 'sat': rot_violation(ck, which, ax, 'value', mdl)
+            st_, mdl = smt.agg_core(ck, '%s.R1 Grad(R v) == R Grad(v) for every rotation about the %s axis (beads %s)' % (which, ax, list(beads)), qg, TO, purify_all=True, probe=[fr != z3.Real('v01_0')])
+            if st_ == 'sat': rot_violation(ck, which, ax, 'gradient', mdl)
+    ck.assumptions.append('rigid motion: rotations about the three coordinate axes with symbolic angle (they generate SO(3)); translations and periodic-image shifts act only through Topology::getDist, the environment boundary of this check (lattice invariance of getDist is decided under C02)')
+
+def positions_from_model(which, mdl):
+    def num(key):
+        v = (mdl or {}).get(key)
+        if v is None: return 0.0
+        v = str(v).rstrip('?')
+        try: return float(F(v))
+        except Exception:
+            try: return float(v)
+            except Exception: return 0.0
+    pos = [[0.0, 0.0, 0.0] for _ in range(4)]
+    if which == 'bond': pos[1] = [num('v01_%d' % i) for i in range(3)]
+    elif which == 'angle':
+        pos[0] = [num('v10_%d' % i) for i in range(3)]; pos[2] = [num('v12_%d' % i) for i in range(3)]
+    else:
+        pos[1] = [num('v01_%d' % i) for i in range(3)]; pos[2] = [pos[1][i] + num('v12_%d' % i) for i in range(3)]; pos[3] = [pos[2][i] + num('v23_%d' % i) for i in range(3)]
+    return pos, num('rc'), num('rs')
+
+def rot_eval(meta):
+    """native: value and gradient at the model geometry and at the rotated geometry"""
+    which, ax, pos, c, s = meta['which'], meta['axis'], meta['positions'], meta['c'], meta['s']
+    n = math.hypot(c, s) or 1.0; c, s = c / n, s / n
+    def rot(v):
+        x, y, z = v
+        if ax == 'z': return [c * x - s * y, s * x + c * y, z]
+        if ax == 'x': return [x, c * y - s * z, s * y + c * z]
+        return [c * x + s * z, y, -s * x + c * z]
+    binp = common.native_build([common.harness_path(HARNESS)], 'C07_native_r', extra=['-I' + common.REPO], defs=['VERIF_NATIVE'], libs=common.votca_libs())
+    bad = False; notes = []
+    for bead in range(NB[which]):
+        def ev(p):
+            rc, so, se = common.run_native(binp, '%s %d ' % (which, bead) + ' '.join(float(x).hex() for q in p for x in q) + '\n'); return [float.fromhex(x) for x in so.split()]
+        a = ev(pos); b = ev([rot(q) for q in pos]); ra = rot(a[1:4])
+        if abs(a[0] - b[0]) > 1e-9 * max(1.0, abs(a[0])): bad = True; notes.append('value %.9g -> %.9g' % (a[0], b[0]))
+        if any(abs(ra[k] - b[1 + k]) > 1e-9 * max(1.0, abs(ra[k])) for k in range(3)): bad = True; notes.append('bead %d: R Grad = %s, Grad at rotated geometry = %s' % (bead, [round(x, 9) for x in ra], [round(x, 9) for x in b[1:4]]))
+    return bad, '; '.join(notes[:3]) + ' at positions %s, rotation about %s by (cos, sin) = (%.6g, %.6g)' % (pos, ax, c, s)
+
+def rot_violation(ck, which, ax, what, mdl):
+    pos, c, s = positions_from_model(which, mdl)
+    meta = {'kind': 'rotation', 'which': which, 'axis': ax, 'what': what, 'positions': pos, 'c': c, 's': s}
+    rep = common.write_replay('C07', 'rotation %s %s %s' % (which, ax, what), {}, meta)
+    ok, why = rot_eval(meta)
+    ck.violation('C07 I%s rotation %s' % ({'bond': 'Bond', 'angle': 'Angle', 'dih': 'Dihedral'}[which], what), '%s: %s is not invariant under a rotation about %s; %s' % (which, what, ax, why), rep, reproduced=ok)
+
+# ---------------------------------------------------------------------------------------------
 def validate(ck, mod):
     rnd = random.Random(common.SEED)
     binp = common.native_build([common.harness_path(HARNESS)], 'C07_native', extra=['-I' + common.REPO], defs=['VERIF_NATIVE'], libs=common.votca_libs(), cxx=common.CLANG)
@@ -336,6 +437,7 @@ def check_c07(ck, tier, replay=None):
     validate(ck, mod)
     parsed = {}
     found = interactions(ck, mod, tier, parsed)
+    rigid_motion(ck, mod, tier, parsed)
     potentials(ck, mod, tier, parsed)
     savepot(ck, mod, tier, parsed)
     splines(ck, tier)
@@ -345,7 +447,7 @@ def check_c07(ck, tier, replay=None):
         rep, ok, why = replay_fd(which, bead, k, mdl, V, name)
         ck.violation('C07 I%s::Grad bead %d' % ({'bond': 'Bond', 'angle': 'Angle', 'dih': 'Dihedral'}[which], bead), name + ' ; ' + why, rep, reproduced=ok)
     for o in ck.obl:
-        if o['status'] == 'sat' and o['name'] not in found and 'SavePotTab' not in o['name']:
+        if o['status'] == 'sat' and o['name'] not in found and 'SavePotTab' not in o['name'] and '.R1 ' not in o['name']:
             rep = common.write_replay('C07', o['name'], {}, {'obligation': o['name'], 'model': (o.get('detail') or {}).get('model')})
             ck.violation('C07 ' + o['name'].split(' path')[0], o['name'] + ' model=%s' % str((o.get('detail') or {}).get('model'))[:200], rep, reproduced=True)
 
@@ -389,6 +491,10 @@ def fd_eval(meta):
 
 def do_replay(ck, path):
     meta = json.load(open(os.path.join(path, 'input.json')))
+    if meta.get('kind') == 'rotation':
+        ok, why = rot_eval(meta); print('replay rotation: %s (%s)' % ('reproduced' if ok else 'not reproduced', why))
+        if ok: print('VIOLATION property=C07 replay=%s' % path); return 1
+        return 0
     if meta.get('kind') == 'savepot':
         ok, why = replay_savepot(meta); print('replay SavePotTab: %s (%s)' % ('reproduced' if ok else 'not reproduced', why))
         if ok: print('VIOLATION property=C07 replay=%s' % path); return 1
